@@ -375,6 +375,16 @@ def run_job(job, spec_blocks, keep=False, scratch_root=None):
                 res.undecided = "OUT-OF-MEMORY or solver error (limit %d GB): %s" % (
                     job.mem_gb, " ".join(l for l in msgs.splitlines() if "memory" in l.lower())[:200])
                 return res
+            nobody = [o for o in res.obligations if o["status"] == "FAILURE" and ".no-body." in o["name"]]
+            if nobody:
+                # the code calls a function this job has no model for: nothing the call influences
+                # is decided; other FAILUREs remain genuine counterexamples only if they do not depend
+                # on the unmodelled result, which we cannot tell - so the job is undecided
+                for o in res.obligations:
+                    if o["status"] == "FAILURE" and not o["vacuity"]:
+                        o["status"] = "UNDECIDED"
+                res.undecided = "NO-BODY: %s" % "; ".join(sorted({o["description"] for o in nobody}))[:200]
+                return res
             unw = [o for o in res.obligations if o["status"] == "FAILURE" and re.search(r"\.unwind\.\d+$", o["name"])]
             if unw:
                 # An unwinding bound was too small for the current code.  A FAILURE of another
